@@ -18,7 +18,7 @@ Record dim  := { dS : Z; dT : Z; dQ : Z }.
 Definition default_usys : usys := {| us := Um; ut := Se; uq := Molecule |}.
 Definition dim0 : dim := {| dS := 0; dT := 0; dQ := 0 |}.
 
-Definition p10 (n : Z) : Qc := Qcpowz ten n.
+
 
 (* SI meaning of every base symbol, as _units_conversion_dict *)
 Definition si_space (u : space_u) : Qc :=
